@@ -24,7 +24,7 @@ func init() {
 	families["schemamal"] = &family{gen: genSchemaMalCase, run: runSchemaCase, prep: prep}
 }
 
-var pathPool = []string{"", "root", "a.b", "x", ".r", "..", "p."}
+var pathPool = []string{"", "root", "a.b", "x", ".r", "..", "p.", "body", "query"}
 
 func genSchemaCase(rng *rand.Rand, idx int, tier string) Case {
 	g := &sgen{rng: rng, maxDepth: 2}
